@@ -17,7 +17,7 @@ import types
 
 from hypothesis import strategies as st
 
-from .. import codec, oracle
+from .. import codec, dspec, oracle
 from ..core import HarnessError
 from .c01 import decl_errors
 
@@ -421,7 +421,57 @@ def judge_twins(case):
                 unload(m)
 
 
+def judge_inherit(case):
+    """a subclass inherits fields whose references are still pending; whichever of the two classes is used first, it behaves as
+    the same declarations written with direct references (the referenced class defined first)"""
+    wrap, first, base, style = case["wrap"], case.get("first", "sub"), case.get("base", "Schema"), case.get("style", "plain")
+    if wrap not in WRAPS or first not in ("sub", "base") or base not in ("Schema", "DataClass") or style not in ("plain", "future"):
+        raise HarnessError("bad inherit case")
+    _n[0] += 1
+    L, B, S = f"Later{_n[0]}", f"Base{_n[0]}", f"Sub{_n[0]}"
+    head = ("from __future__ import annotations\n" if style == "future" else "") + "import utype\nfrom typing import *\n"
+    later = f"class {L}(utype.{base}):\n    w: int\n"
+
+    def decls(ref):
+        return (f"class {B}(utype.{base}):\n    v: int = 0\n    nxt: {ann(wrap, ref)} = {DEFAULT[wrap]}\n"
+                f"class {S}({B}):\n    x: int = 0\n")
+    fwd = load(head + decls(repr(L) if style == "plain" else L) + later, "inf")
+    ref = load(head + later + decls(L), "inr")
+    try:
+        def child(v):
+            return {"plain": v, "opt": v, "list": [v], "dict": {"k": v}, "union": v, "tuple": (v, 1), "list_opt": [v, None], "dict_list": {"k": [v]}}[wrap]
+        fails = []
+        for who in ([S, B] if first == "sub" else [B, S]) + [S]:
+            data = {"v": "1", "nxt": child({"w": "2"})}
+            a = oracle.outcome(dspec.from_data(getattr(fwd, who)), dict(data))
+            b = oracle.outcome(dspec.from_data(getattr(ref, who)), dict(data))
+            if a[0] in ("other", "hang") or b[0] != "ok":
+                return {"status": "other", "fails": fails}
+            if a[0] != "ok":
+                fails.append((f"inherited-pending-reference/{'subclass' if who == S else 'base'}-used-{'first' if who == ([S, B] if first == 'sub' else [B, S])[0] and not fails else 'later'}-fails",
+                              {"wrap": wrap, "error": str(a[1])[:200], "class": who, "first": first}))
+                break
+            pa, pb = oracle.plain(a[1]), oracle.plain(b[1])
+            if not oracle.equal(_strip_names(pa), _strip_names(pb)):
+                fails.append(("inherited-pending-reference/result-differs-from-direct-references", {"wrap": wrap, "forward": oracle.short(pa), "direct": oracle.short(pb)}))
+                break
+        return {"status": "ok", "fails": fails, "unresolved": True}
+    finally:
+        unload(fwd)
+        unload(ref)
+
+
+def _strip_names(x):
+    if isinstance(x, dict):
+        return {k: _strip_names(v) for k, v in x.items() if k != "__cls__"}
+    if isinstance(x, (list, tuple)):
+        return [_strip_names(v) for v in x]
+    return x
+
+
 def run_case(case):
+    if case.get("part") == "inherit":
+        return judge_inherit(case)
     if case.get("part") == "twins":
         return judge_twins(case)
     return judge_case(case)
@@ -526,8 +576,8 @@ def campaign(ctx):
     def body(case):
         r = run_case(case)
         ctx.label(f"status_{r['status']}")
-        if case.get("part") == "twins":
-            ctx.label("part_twins")
+        if case.get("part") in ("twins", "inherit"):
+            ctx.label("part_" + case["part"])
             ctx.nt(case)
         else:
             for f in feats(case["program"]):
@@ -551,3 +601,13 @@ def campaign(ctx):
                         ctx.ev()
                         body({"part": "twins", "wrap": wrap, "first": first, "styles": [s0, s1], "early_use": early})
     ctx.extra["twins_grid_exhaustive"] = True
+    # a subclass of a class with pending references, used before / after its base: enumerated completely
+    for wrap in WRAPS:
+        for first in ("sub", "base"):
+            for base in ("Schema", "DataClass"):
+                for style in ("plain", "future"):
+                    idx += 1
+                    if idx % ctx.nshards != ctx.shard:
+                        continue
+                    ctx.ev()
+                    body({"part": "inherit", "wrap": wrap, "first": first, "base": base, "style": style})
